@@ -11,6 +11,8 @@ TESTS = {
     'nf_roundtrip_keys': dict(fns=['private_to_public_key', 'get_public_key', 'expand_public', 'expand_private', 'into_bytes', 'try_from_bytes',
                                    'key_gen_internal', 'keygen_from_seed'], props=['C01', 'C11', 'C09'],
                               bound='2 seeds x 3 parameter sets x {pure, SHA-256, SHA-512, SHAKE128} x {generated, round-tripped, derived} keys, 255-byte context (a sample, not a proof)'),
+    'nf_pk_total': dict(fns=['expand_public', 'pk_decode', 'try_from_bytes', 'into_bytes', 'pk_encode'], props=['C09', 'C13', 'C02'],
+                        bound='5 structured public-key byte strings per parameter set (all 0x00, all 0xFF, a pattern, zero t1, one-hot t1): accepted and re-serialised identically'),
     'nf_sk_fields': dict(fns=['sk_decode', 'expand_private', 'try_from_bytes', 'bit_unpack', 'is_in_range'], props=['C10', 'C13'],
                          bound='every s1/s2 field position x every field value, on one honestly generated key per parameter set'),
 }
